@@ -14,7 +14,8 @@ class MerkleTree:
     def __init__(self, total):
         self.total = total
         # compute max depth math.ceil(math.log(self.total, 2))
-        self.max_depth = math.ceil(math.log(self.total, 2))
+        # ceil(log2(total)) with integer arithmetic (float log is off for 2**29, 2**31, ...)
+        self.max_depth = (self.total - 1).bit_length()
         # initialize the nodes property to hold the actual tree
         self.nodes = []
         # loop over the number of levels (max_depth+1)
